@@ -8,6 +8,7 @@ import (
 	"fmt"
 	"math/rand/v2"
 	"net/http"
+	"net/http/httptest"
 	"net/url"
 	"strings"
 	"sync"
@@ -15,6 +16,7 @@ import (
 	"time"
 
 	jose "github.com/go-jose/go-jose/v4"
+	"golang.org/x/oauth2"
 
 	"github.com/zitadel/oidc/v3/pkg/client"
 	"github.com/zitadel/oidc/v3/pkg/client/profile"
@@ -57,6 +59,7 @@ type sharedSet struct {
 	rpPK         rp.RelyingParty
 	rpJWTAT      rp.RelyingParty
 	rpCookie     rp.RelyingParty
+	rpOAuth      rp.RelyingParty // built by rp.NewRelyingPartyOAuth (no discovery), cookie handler, no error handler option
 	rsCC         rs.ResourceServer
 	rsPK         rs.ResourceServer
 	teCC         tokenexchange.TokenExchanger
@@ -133,6 +136,10 @@ func (rd *round) buildSet(name, issuer string, s srv) *sharedSet {
 		ch := httphelper.NewCookieHandler([]byte("0123456789abcdef0123456789abcdef"), []byte("0123456789abcdef"), httphelper.WithUnsecure())
 		set.rpCookie, err = rp.NewRelyingPartyOIDC(ctxBG, issuer, "c20", "secret-c20", c20Redirect, scopes, rp.WithHTTPClient(hc), rp.WithSigningAlgsFromDiscovery(), rp.WithPKCE(ch))
 		must(err, "rpCookie")
+		ch2 := httphelper.NewCookieHandler([]byte("fedcba9876543210fedcba9876543210"), []byte("fedcba9876543210"), httphelper.WithUnsecure())
+		set.rpOAuth, err = rp.NewRelyingPartyOAuth(&oauth2.Config{ClientID: "c20", ClientSecret: "secret-c20", RedirectURL: c20Redirect, Scopes: scopes,
+			Endpoint: oauth2.Endpoint{AuthURL: issuer + "/authorize", TokenURL: issuer + "/oauth/token"}}, rp.WithHTTPClient(hc), rp.WithCookieHandler(ch2))
+		must(err, "rpOAuth")
 		set.rsCC, err = rs.NewResourceServerClientCredentials(ctxBG, issuer, "c20", "secret-c20", rs.WithClient(hc))
 		must(err, "rsCC")
 		set.rsPK, err = rs.NewResourceServerJWTProfile(ctxBG, issuer, "c20pk", pkKid, pkPEM)
@@ -275,7 +282,7 @@ var srvKinds = []string{"s.discovery", "s.keys", "s.code", "s.code", "s.implicit
 var newKinds = []string{"x.new_provider_custom", "x.new_provider_default", "x.new_rp", "x.new_rs_te"}
 
 var cliKinds = []string{"c.code", "c.code", "c.browser", "c.userinfo", "c.userinfo", "c.refresh", "c.endsession", "c.endsession", "c.revoke", "c.revoke", "c.clientcreds",
-	"c.device", "c.introspect", "c.introspect", "c.exchange", "c.ts", "c.verify", "c.discover", "c.discover_front", "c.browser", "c.findkey", "c.verify_ks"}
+	"c.device", "c.introspect", "c.introspect", "c.exchange", "c.ts", "c.verify", "c.discover", "c.discover_front", "c.browser", "c.findkey", "c.verify_ks", "c.callback_error", "c.callback_error"}
 
 func concMandatory() []string {
 	var out []string
@@ -294,6 +301,11 @@ func concMandatory() []string {
 		if !seen[n] {
 			seen[n] = true
 			out = append(out, n)
+		}
+	}
+	for _, kind := range []string{"oauth", "oidc"} {
+		for _, use := range []string{"error-callback", "unauthorized", "verifier"} {
+			out = append(out, "conc:first-use-burst:"+kind+":"+use)
 		}
 	}
 	return append(out, "conc:shared-device-state-polled-concurrently", "conc:dynamic-issuer-round", "conc:static-issuer-round")
@@ -585,6 +597,64 @@ func (w *worker) newOp(kind string) (class string) {
 	return "error:" + errStr(err)
 }
 
+// firstUseBursts: the lazily defaulted parts of a relying party (error handler, unauthorized handler, ID token verifier)
+// must be safe to reach for the FIRST time from many goroutines at once. For n freshly built relying parties of each
+// construction kind, g goroutines released together make the first call that needs such a part.
+func (rd *round) firstUseBursts(n, g int) {
+	set := rd.sets[0]
+	scopes := []string{"openid"}
+	for k := 0; k < n; k++ {
+		for _, kind := range []string{"oauth", "oidc"} {
+			var party rp.RelyingParty
+			ok := rd.lib(func() {
+				var err error
+				if kind == "oauth" {
+					party, err = rp.NewRelyingPartyOAuth(&oauth2.Config{ClientID: "c20", ClientSecret: "secret-c20", RedirectURL: c20Redirect, Scopes: scopes,
+						Endpoint: oauth2.Endpoint{AuthURL: set.issuer + "/authorize", TokenURL: set.issuer + "/oauth/token"}}, rp.WithHTTPClient(rd.hcShared))
+				} else {
+					party, err = rp.NewRelyingPartyOIDC(ctxBG, set.issuer, "c20", "secret-c20", c20Redirect, scopes, rp.WithHTTPClient(rd.hcShared))
+				}
+				must(err, "burst rp")
+			})
+			if !ok {
+				return
+			}
+			use := []string{"error-callback", "unauthorized", "verifier"}[k%3]
+			h := handlersFor(party)
+			start := make(chan struct{})
+			var wg sync.WaitGroup
+			for j := 0; j < g; j++ {
+				wg.Add(1)
+				go func(j int) {
+					defer wg.Done()
+					<-start
+					rd.lib(func() {
+						switch use {
+						case "error-callback":
+							rec := httptest.NewRecorder()
+							h.cb(rec, httptest.NewRequest("GET", fmt.Sprintf("%s?error=access_denied&error_description=burst-%d&state=s", c20Redirect, j), nil))
+							if !strings.Contains(rec.Body.String(), fmt.Sprintf("burst-%d", j)) {
+								rd.violation("C20:crosstalk:first-use-burst", "an error callback of a first-use burst was answered with another callback's text", map[string]any{"body": clip(rec.Body.String(), 200)})
+							}
+						case "unauthorized":
+							// a code the provider never issued: the exchange fails and the unauthorized handler answers
+							rec := httptest.NewRecorder()
+							h.cb(rec, httptest.NewRequest("GET", fmt.Sprintf("%s?code=no-such-code-%d&state=s", c20Redirect, j), nil))
+						case "verifier":
+							_ = party.IDTokenVerifier()
+						}
+					})
+					rd.run.Eval()
+				}(j)
+			}
+			close(start)
+			wg.Wait()
+			rd.run.Observed("conc:first-use-burst:" + kind + ":" + use)
+			rd.run.Distinct("first-use-burst|" + kind + "|" + use)
+		}
+	}
+}
+
 // deviceBursts: for each of n freshly approved device codes per router, g goroutines released together poll it, so
 // that the first use of the shared storage-owned state is itself concurrent.
 func (rd *round) deviceBursts(n, g int) {
@@ -745,6 +815,35 @@ func (w *worker) cliOp(kind string, set *sharedSet) (class string) {
 			if err == nil && d.Issuer != set.issuer {
 				err = fmt.Errorf("crosstalk: discovered issuer %q for %q", d.Issuer, set.issuer)
 			}
+		case "c.callback_error":
+			// the provider sends the user agent back with an error: the callback handler answers through the relying
+			// party's (lazily defaulted) error handler; every answer must name this request's own error and state
+			w.seq++
+			pr := []rp.RelyingParty{set.rpOAuth, set.rpOAuth, set.rpCookie, set.rpWeb}[w.r.IntN(4)]
+			mk := fmt.Sprintf("mk%dx%dx", w.id+1, w.seq)
+			state := "st-" + mk
+			var cookies []*http.Cookie
+			if pr.CookieHandler() != nil {
+				// a login started in this browser first: the callback is only looked at with its state cookie
+				lr := httptest.NewRecorder()
+				handlersFor(pr).auth(lr, httptest.NewRequest("GET", "https://c20.example/login", nil))
+				if u, e := url.Parse(lr.Header().Get("Location")); e == nil {
+					state = u.Query().Get("state")
+				}
+				cookies = lr.Result().Cookies()
+			}
+			cb := httptest.NewRequest("GET", c20Redirect+"?error=access_denied&error_description=desc-"+mk+"&state="+url.QueryEscape(state), nil)
+			for _, c := range cookies {
+				cb.AddCookie(c)
+			}
+			rec := httptest.NewRecorder()
+			handlersFor(pr).cb(rec, cb)
+			body := rec.Body.String()
+			if fm := foreignMarkers(body, mk); len(fm) > 0 {
+				err = fmt.Errorf("crosstalk: the error page of callback %s shows data of another callback (%s)", mk, fm[0])
+			} else if rec.Code < 400 || !strings.Contains(body, mk) {
+				err = fmt.Errorf("harness: error callback answered %d %q", rec.Code, clip(body, 200))
+			}
 		case "c.findkey":
 			kcs := keyCases()
 			kc := kcs[w.r.IntN(len(kcs))]
@@ -875,6 +974,7 @@ func runRound(run *ev.Run, r int) {
 	}
 	before := append(globals(), rd.w.snap()...)
 	rd.deviceBursts(run.N(12, 40), 8)
+	rd.firstUseBursts(run.N(6, 18), 8)
 	before = append(before, rd.pre...)
 
 	// Flood guard: on a tree with a hot race (e.g. a field of a shared HTTP client written by every logout and
